@@ -187,7 +187,13 @@ func init() {
 			Describe: func(i int64) string { p, _ := progOf(i); return p.Lisp() + " x every stepper script" },
 			Run: func(i int64, r *vf.Rec) {
 				prog, kind := progOf(i)
-				ast := model.ToImpl(prog)
+				// read from text under a named cursor, so that every form has a source position as in
+				// real use (the stepper's reports and error positions depend on it)
+				ast, rerr := lisp.READ(prog.Lisp(), types.NewCursorFile("c18"), nil)
+				if rerr != nil {
+					r.Violation("harness: generated program does not read", rerr.Error())
+					return
+				}
 				lisp.Stepper = nil
 				plain, _ := rg.runImpl(ast, 3000)
 				r.Exec(1)
@@ -218,12 +224,16 @@ func init() {
 						r.ViolationCase("stepper changes the outcome: "+what, prog.Lisp()+" script "+scriptName(sc), "without stepper: "+outStr(plain)+"\nwith stepper:    "+outStr(got))
 						return
 					}
+					if plain.IsErr && got.IsErr && plain.ErrMsg != got.ErrMsg {
+						r.ViolationCase("stepper changes the error returned to the caller: "+what, prog.Lisp()+" script "+scriptName(sc), "without stepper: "+plain.ErrMsg+"\nwith stepper:    "+got.ErrMsg)
+						return
+					}
 				}
 			},
 		}
 		return &vf.Check{
 			ID: "C18", Level: "model_checking",
-			Rule: "every program of the bounded spaces is run on the real EVAL without a stepper and under every scripted stepper command sequence (flags reset and read through a test-only export); result, error (thrown payload) and ordered effect trace must be identical; for every (t! sym) form handed to the callback the symbol is resolved in the scope handed along and must equal the effect that follows; the visited (flag state x command) pairs of the stepping machine are reported in outcomes; non-trivial = program with effects",
+			Rule: "every program of the bounded spaces is run on the real EVAL without a stepper and under every scripted stepper command sequence (flags reset and read through a test-only export); result, error (thrown payload and the error's full text, position included) and ordered effect trace must be identical; for every (t! sym) form handed to the callback the symbol is resolved in the scope handed along and must equal the effect that follows; the visited (flag state x command) pairs of the stepping machine are reported in outcomes; non-trivial = program with effects",
 			Assumptions: []string{"text printed by the 'next' command is not a program effect", "programs terminate within the host stack (bounded recursion)"},
 			Families: []*vf.Family{fam},
 		}
